@@ -361,3 +361,137 @@ func TestMuxSilence(t *testing.T) {
 		evid.Sample("silent", cd)
 	})
 }
+
+// Several connections at once, their sniff phases overlapping (first lines sent
+// in two segments with other clients connecting in between), after earlier
+// connections were served and closed: every connection must still reach exactly
+// one service with its OWN bytes. Free-running (the listener has no schedule
+// points): generated cases, OS-chosen interleavings.
+func TestMuxConcurrentConnections(t *testing.T) {
+	m := newMux(t, 20*time.Second)
+	defer m.l.Close()
+	m.mu.Lock()
+	m.readSize = []int{5, 64, 1024}
+	m.mu.Unlock()
+	evid.Checks(40, 600)
+	rapid.Check(t, func(t *rapid.T) {
+		n := rapid.IntRange(2, 8).Draw(t, "clients")
+		type cl struct {
+			fl    firstLine
+			data  []byte
+			split int
+			rec   *received
+			reply string
+		}
+		cls := make([]*cl, n)
+		for i := range cls {
+			fl := genFirstLine(t)
+			payload := rapid.SliceOfN(rapid.Byte(), 0, 400).Draw(t, "payload")
+			// every client's bytes carry its index so that a mix-up is visible even between equal first lines
+			data := append([]byte(fl.Text), []byte(fmt.Sprintf("#client-%d#", i))...)
+			data = append(data, payload...)
+			cls[i] = &cl{fl: fl, data: data, split: rapid.IntRange(1, 15).Draw(t, "firstSegment")}
+		}
+		var wg sync.WaitGroup
+		start := make(chan struct{})
+		for _, c := range cls {
+			wg.Add(1)
+			go func(c *cl) {
+				defer wg.Done()
+				<-start
+				sp := c.split
+				if sp > len(c.data) {
+					sp = len(c.data)
+				}
+				segs := []int{sp}
+				if len(c.data) > sp {
+					segs = append(segs, len(c.data)-sp)
+				}
+				c.rec, c.reply, _ = runConn(t, m, c.data, segs, true, 30*time.Second)
+			}(c)
+		}
+		close(start)
+		wg.Wait()
+		evid.Eval(int64(n))
+		for i, c := range cls {
+			cd := caseDesc{Kind: "concurrent:" + c.fl.Kind, Line: c.fl.Text, Want: c.fl.Want, Payload: len(c.data), Segs: []int{c.split}, FirstBad: -1}
+			got := "closed"
+			if c.rec != nil {
+				got = c.rec.service
+			}
+			cd.Got = got
+			if got != c.fl.Want {
+				evid.Violation(t, "concurrent-routing", cd, "client %d of %d concurrent ones (first line %q): reached %q, reference says %q", i, n, c.fl.Text, got, c.fl.Want)
+			}
+			if c.rec != nil && !bytes.Equal(c.rec.data, c.data) {
+				cd.GotLen = len(c.rec.data)
+				evid.Violation(t, "concurrent-bytes", cd, "client %d of %d concurrent ones: service %s read %q…, the client wrote %q…", i, n, got, trunc(c.rec.data), trunc(c.data))
+			}
+		}
+		evid.Class(fmt.Sprintf("%d concurrent connections", n))
+		evid.Nontrivial(evid.FP("concurrent", n, fmt.Sprint(cls[0].fl.Text, cls[0].split, cls[n-1].fl.Text)))
+	})
+}
+
+func trunc(b []byte) string {
+	if len(b) > 70 {
+		b = b[:70]
+	}
+	return string(b)
+}
+
+// A slow client: its first segment already identifies the protocol (a complete
+// method and the start of the target) but is shorter than the sniff depth, and
+// the rest only follows after the sniff timeout. The statement lets such a
+// connection be closed as silent; but IF it is handed to a service, it must be
+// the right one and that service must still read the whole original stream.
+func TestMuxSlowSecondSegment(t *testing.T) {
+	short := newMux(t, 60*time.Millisecond)
+	defer short.l.Close()
+	short.mu.Lock()
+	short.readSize = []int{4096}
+	short.mu.Unlock()
+	evid.Checks(40, 400)
+	rapid.Check(t, func(t *rapid.T) {
+		c := rapid.SampledFrom([]struct{ line, want string }{
+			{"GET /live/cam1.flv HTTP/1.1\r\nHost: h\r\n\r\n", "http"},
+			{"POST /api/v1/login HTTP/1.1\r\nHost: h\r\n\r\n", "http"},
+			{"DESCRIBE rtsp://h/live/cam1 RTSP/1.0\r\nCSeq: 1\r\n\r\n", "rtsp"},
+			{"SETUP rtsp://h/live/cam1/streamid=0 RTSP/1.0\r\nCSeq: 2\r\n\r\n", "rtsp"},
+			{"GET_PARAMETER rtsp://h/x RTSP/1.0\r\nCSeq: 3\r\n\r\n", "rtsp"},
+		}).Draw(t, "request")
+		line := strings.NewReplacer("\\r", "\r", "\\n", "\n").Replace(c.line)
+		first := rapid.IntRange(len(strings.SplitN(line, " ", 2)[0])+1, 14).Draw(t, "firstSegment")
+		pause := time.Duration(rapid.IntRange(120, 300).Draw(t, "pauseMs")) * time.Millisecond
+		conn, err := net.Dial("tcp", short.addr)
+		if err != nil {
+			t.Fatalf("dial: %v", err)
+		}
+		defer conn.Close()
+		key := conn.LocalAddr().String()
+		conn.Write([]byte(line[:first]))
+		time.Sleep(pause) // the client is slow; nothing is judged by this duration
+		_, werr := conn.Write([]byte(line[first:]))
+		if werr == nil {
+			conn.(*net.TCPConn).CloseWrite()
+		}
+		conn.SetReadDeadline(time.Now().Add(10 * time.Second))
+		reply, _ := io.ReadAll(conn)
+		rec := short.take(key)
+		evid.Eval(1)
+		cd := caseDesc{Kind: "slow-second-segment", Line: line, Want: c.want + " or closed", Segs: []int{first}}
+		if rec == nil {
+			evid.Class("slow client: closed as silent")
+			return
+		}
+		cd.Got, cd.GotLen = rec.service, len(rec.data)
+		if rec.service != c.want {
+			evid.Violation(t, "slow-routing", cd, "slow client with first segment %q: handed to %q, its request line is %s", line[:first], rec.service, c.want)
+		}
+		if string(rec.data) != line {
+			evid.Violation(t, "slow-bytes", cd, "slow client with first segment %q was handed to %s, which read only %q of %q (reply %q)", line[:first], rec.service, trunc(rec.data), trunc([]byte(line)), reply)
+		}
+		evid.Class("slow client: handed to the right service with its whole stream")
+		evid.Nontrivial(evid.FP("slow", line, first))
+	})
+}
